@@ -112,6 +112,16 @@ class ClassRef(object):
   def __repr__(self):
     return "<ClassRef %s>" % self.cls.name
 
+  # two references to the same class are the same class object
+  def __eq__(self, other):
+    return isinstance(other, ClassRef) and other.cls is self.cls
+
+  def __ne__(self, other):
+    return not self.__eq__(other)
+
+  def __hash__(self):
+    return hash(id(self.cls))
+
 
 class Ext(object):
   """External (non-repository) module, function or type, by canonical
@@ -251,6 +261,69 @@ class FloatTag(Fraction):
 class NArr(list):
   """A concrete numpy / tensorflow array of numbers (np.asarray, tf.range,
   tf.concat of such): arithmetic and comparisons are element-wise."""
+
+
+class NDArr(object):
+  """A concrete numpy array of rank >= 2 (e.g. a kernel mask): nested python
+  lists of exact numbers plus the shape; only shape operations are
+  supported."""
+
+  def __init__(self, nested):
+    self.nested = nested
+    shp = []
+    v = nested
+    while isinstance(v, list):
+      shp.append(len(v))
+      v = v[0] if v else None
+    self.shape = tuple(shp)
+
+  def flat(self):
+    out = []
+
+    def walk(v):
+      if isinstance(v, list):
+        for e in v:
+          walk(e)
+      else:
+        out.append(v)
+    walk(self.nested)
+    return out
+
+  @staticmethod
+  def from_flat(flat, shape):
+    def build(vals, shp):
+      if not shp:
+        return vals[0]
+      n = 1
+      for d in shp[1:]:
+        n *= d
+      return [build(vals[i * n:(i + 1) * n], shp[1:]) for i in range(shp[0])]
+    shape = tuple(int(d) for d in shape)
+    total = 1
+    for d in shape:
+      total *= d
+    if total != len(flat):
+      raise PyRaise("ValueError", "cannot reshape array of size %d into "
+                    "shape %s" % (len(flat), shape))
+    if len(shape) == 0:
+      return flat[0]
+    if len(shape) == 1:
+      return NArr(flat)
+    return NDArr(build(list(flat), shape))
+
+  def __repr__(self):
+    return "<NDArr shape=%s>" % (self.shape,)
+
+
+def nd_equal(a, b):
+  """Same shape and values (NDArr / NArr / nested lists)."""
+  sa = a.shape if isinstance(a, NDArr) else ((len(a),) if isinstance(
+      a, list) else None)
+  sb = b.shape if isinstance(b, NDArr) else ((len(b),) if isinstance(
+      b, list) else None)
+  fa = a.flat() if isinstance(a, NDArr) else a
+  fb = b.flat() if isinstance(b, NDArr) else b
+  return sa == sb and list(fa) == list(fb)
 
 
 def is_floaty(v):
@@ -625,6 +698,14 @@ class PE(object):
       if name == "rank" or name == "ndims":
         return len(obj.dims)
       return BoundPrim(obj, name)
+    if isinstance(obj, NDArr):
+      if name == "shape":
+        return obj.shape
+      if name == "ndim":
+        return len(obj.shape)
+      return BoundPrim(obj, name)
+    if isinstance(obj, NArr) and name in ("shape", "ndim"):
+      return (len(obj),) if name == "shape" else 1
     if isinstance(obj, (list, dict, str, tuple)) and name != "__class__":
       return BoundPrim(obj, name)
     if hasattr(obj, "gram_op") or hasattr(obj, "gram_method"):
@@ -930,6 +1011,8 @@ class PE(object):
     self.err("comparison op", node)
 
   def py_eq(self, a, b):
+    if isinstance(a, ClassRef) and isinstance(b, ClassRef):
+      return a.cls is b.cls
     if isinstance(a, (Obj, Func, ClassRef, Opaque)) or \
         isinstance(b, (Obj, Func, ClassRef, Opaque)):
       return a is b
@@ -1305,6 +1388,18 @@ class PE(object):
       self.err("shape method %s" % n, node)
     if isinstance(r, (int, Fraction)) and n == "numpy":
       return r
+    if isinstance(r, NDArr):
+      if n == "tolist":
+        import copy as _c
+        return _c.deepcopy(r.nested)
+      if n in ("copy", "astype", "numpy"):
+        return r
+      if n == "reshape":
+        shp = args[0] if len(args) == 1 and isinstance(
+            args[0], (list, tuple)) else args
+        return NDArr.from_flat(r.flat(), shp)
+    if isinstance(r, NArr) and n in ("tolist", "astype", "numpy"):
+      return list(r) if n == "tolist" else r
     if isinstance(r, list):
       if n == "append":
         r.append(args[0])
